@@ -36,6 +36,8 @@ import (
 //     G <probe results>                                             getter probes (C08)
 func init() {
 	register(&Family{Name: "oracle", Gen: genOracleHist, Run: runOracleHist})
+	register(&Family{Name: "oracle7", Gen: genOracleHist, Run: runOracleHist}) // C07 monitor on the same histories
+	register(&Family{Name: "oracle8", Gen: genOracleHist, Run: runOracleHist}) // C08 monitor on the same histories
 }
 
 func short(b []byte) string {
